@@ -1125,6 +1125,17 @@ func (s *SecureChannel) sendAsyncWithTimeout(
 	defer instance.Unlock()
 	verifhook.Point("sc.send.locked")
 
+	// A request of which nothing was written must not use up a sequence
+	// number. Otherwise, the next chunk on the wire skips a number. Hand the
+	// number back while we still hold the lock. Once a part of the request is
+	// on the wire its numbers are gone, even when a later chunk fails.
+	seq, written := instance.sequenceNumber, false
+	defer func() {
+		if err != nil && !written {
+			instance.sequenceNumber = seq
+		}
+	}()
+
 	m, err := instance.newRequestMessage(req, reqID, authToken, timeout)
 	if err != nil {
 		return nil, err
@@ -1183,7 +1194,9 @@ func (s *SecureChannel) sendAsyncWithTimeout(
 		// send the message
 		var n int
 		s.c.SetWriteDeadline(time.Now().Add(timeout))
-		if n, err = s.c.Write(chunk); err != nil {
+		n, err = s.c.Write(chunk)
+		written = written || n > 0
+		if err != nil {
 			return nil, err
 		}
 		s.c.SetWriteDeadline(time.Time{})
